@@ -25,10 +25,11 @@ Section SM.
     | [] => [(k, v)]
     | (k', v') :: t => if keqb k k' then (k, v) :: t else (k', v') :: assoc_set k v t
     end.
+  (* Go: delete(map, key) *)
   Fixpoint assoc_del {A} (k : K) (l : list (K * A)) : list (K * A) :=
     match l with
     | [] => []
-    | (k', v') :: t => if keqb k k' then t else (k', v') :: assoc_del k t
+    | (k', v') :: t => if keqb k k' then assoc_del k t else (k', v') :: assoc_del k t
     end.
 
   Definition depth (sm : smap) : nat := length (stack sm).
